@@ -397,7 +397,7 @@ func c04Partition(t *rapid.T, in *Intent) c04Layout {
 }
 
 func genC04(t *rapid.T) c04Case {
-	in := GenIntentOpt(t, IntentOpts{Subs: true, SubsOrderFree: true})
+	in := GenIntentOpt(t, IntentOpts{Subs: true, SubsOrderFree: true, EpAnnos: true})
 	indent := pick(t, []string{"    ", "  ", "\t", "   "}, "indent")
 	lay := c04Partition(t, in)
 	files := map[string]string{}
